@@ -254,6 +254,26 @@ def check(case):
             return Result.violation("optimal-infeasible", f"violation {o.violations(x):.3g} at {sol.values}; {desc}", classes)
         gap = o.f(x) - fstar
         if gap > 10 * max(gap_raw, 0.0) + 1e-6 * (1 + abs(fstar)):
+            # accuracy of the two runs differs.  Layer 1 showed that the callables optyx handed over equal the hand-written
+            # ones to 1e-9; if SciPy, run directly on those captured callables, stops as far from the optimum as the optyx run
+            # did, the difference is the solver's sensitivity to last-bit differences (trust-constr's barrier iterations at an
+            # active bound), not the wrapper.
+            capkw = dict(fun=call["fun"], x0=x0c.copy(), method=used, jac=call.get("jac"), tol=call.get("tol"),
+                         options=call.get("options"))
+            if call.get("hess") is not None:
+                capkw["hess"] = call["hess"]
+            if bnds is not None:
+                capkw["bounds"] = bnds
+            if cdicts:
+                capkw["constraints"] = cdicts
+            try:
+                raw3 = raw_minimize(**capkw)
+                gap3 = o.f(np.asarray(raw3.x, dtype=float)) - fstar
+            except Exception:
+                gap3 = None
+            if gap3 is not None and gap <= 10 * max(gap_raw, gap3, 0.0) + 1e-6 * (1 + abs(fstar)):
+                classes.append("raw-on-captured-callables:same-accuracy")
+                return Result.inconclusive("scipy-sensitive-to-rounding", classes)
             return Result.violation(f"suboptimal:{used}", f"f(x_optyx)-f* = {gap:.3e} while raw SciPy reached {gap_raw:.3e} "
                                                           f"(x_optyx={x.tolist()}, x_raw={raw.x.tolist()}, x*={o.xstar.tolist()}); {desc}", classes)
         sgn = 1.0 if model["sense"] == "minimize" else -1.0
